@@ -647,9 +647,13 @@ def in1(ctx, R):
         raise AnchorMissing("tdms_segment.TdmsSegment.read_segment_objects: parameter holding the previous segment")
     PREV = ("param", prev[0])
 
+    table = prog.try_fold(prog.module("common").assigns.get("toc_properties"), prog.module("common"), default=None) or {}
+
     def flag_test(c, name):
+        # MASK & toc_properties[name], the flag looked up or through a named constant that folds to its value
         return isinstance(c, tuple) and len(c) == 3 and c[0] == "binop" and c[1] == "&" and any(
-            isinstance(t, tuple) and len(t) == 3 and t[0] == "sub" and t[2] == ("const", name) for t in c[2])
+            isinstance(t, tuple) and ((len(t) == 3 and t[0] == "sub" and t[2] == ("const", name)) or
+                                      (name in table and t == ("const", table[name]) and type(t[1]) is int)) for t in c[2])
 
     def orc(c):
         if flag_test(c, "kTocNewObjList") or flag_test(c, "kTocMetaData"):
@@ -689,6 +693,110 @@ def in1(ctx, R):
                                 "(or their positions) leak into it" % (node.attr, "; ".join(show(alpha(x))[:60] for x in gs) or "none"))
     if n < 2:
         raise AnchorMissing("reads of the previous segment's ordered_objects / object_index reached from read_segment_objects (found %d)" % n)
+
+
+@rule("PV1", "the map from a path to its most recent segment object is refreshed for every object of every segment", floor=1)
+def pv1(ctx, R):
+    """`raw data index same as previous` and `no data` headers after a new object list are resolved through a map path -> most
+    recent segment object that the reader hands to the metadata parser.  Decided: either a loop over all objects of the parsed
+    segment stores each of them on every path of its body, or, if the map is maintained inside the parser, every path through one
+    round of the parser's object loop passes a store (an object that is put in the segment's list without being recorded leaves a
+    stale index in the map)."""
+    from .flow import resolve_call
+    prog = ctx.prog
+    rso = prog.func("tdms_segment.TdmsSegment.read_segment_objects")
+    ps = [p for p in rso.params if p != "self"]
+    if len(ps) < 2:
+        raise AnchorMissing("tdms_segment.TdmsSegment.read_segment_objects(file, previous_segment_objects, ...)")
+    pname = ps[1]
+    # the reader's field that is handed in
+    fields = set()
+    ncalls = 0
+    for f in prog.functions.values():
+        if f.module.name != "reader":
+            continue
+        for c in walk_body(f.node):
+            if isinstance(c, ast.Call) and any(t.qual == rso.qual for t, _k in resolve_call(prog, f, f.cls, c)):
+                a = c.args[1] if len(c.args) > 1 else next((k.value for k in c.keywords if k.arg == pname), None)
+                ncalls += 1
+                if isinstance(a, ast.Name):
+                    # a local that is bound once, to the field
+                    binds = [n.value for n in walk_body(f.node) if isinstance(n, ast.Assign) and any(isinstance(t, ast.Name) and t.id == a.id for t in n.targets)]
+                    a = binds[0] if len(binds) == 1 else a
+                if a is not None and dotted(a) and dotted(a).startswith("self."):
+                    fields.add(dotted(a))
+    if not ncalls:
+        raise AnchorMissing("reader: call of read_segment_objects")
+    if not fields:
+        R.unrecognised("reader::previous-objects map", rso.where(), "the map handed to the metadata parser is not a field of the reader")
+        return
+    F = sorted(fields)[0]
+
+    def stores_into(f, name):
+        return [n for n in walk_body(f.node) if isinstance(n, ast.Assign) and any(isinstance(t, ast.Subscript) and dotted(t.value) == name for t in n.targets)]
+    # helpers of the reader that store on every path from entry to a normal return
+    always = set()
+    for f in prog.functions.values():
+        if f.module.name == "reader" and stores_into(f, F):
+            g = ctx.cfg(f)
+            sn = set(g.where(lambda n: n.kind == "stmt" and n.ast in stores_into(f, F)))
+            if g.exit not in g.reach([g.entry], avoid=lambda n: n in sn, follow_exc=False):
+                always.add(f.qual)
+    def storing_stmts(f, loop):
+        out = [n for n in stores_into(f, F) if any(x is n for x in ast.walk(loop))]
+        for stmt in ast.walk(loop):
+            if isinstance(stmt, ast.Expr) and isinstance(stmt.value, ast.Call) and any(
+                    t.qual in always and t.qual != f.qual for t, _k in resolve_call(prog, f, f.cls, stmt.value)):
+                out.append(stmt)
+        return out
+    # (a) a complete refresh: loop over <segment>.ordered_objects whose every round stores the object
+    complete = None
+    for f in sorted(prog.functions.values(), key=lambda f: f.qual):
+        if f.module.name != "reader":
+            continue
+        cfg = ctx.cfg(f)
+        for loop in [n for n in walk_body(f.node) if isinstance(n, ast.For) and isinstance(n.iter, ast.Attribute) and n.iter.attr == "ordered_objects"]:
+            st = storing_stmts(f, loop)
+            heads = cfg.where(lambda n: n.kind == "for" and n.ast is loop)
+            snodes = cfg.where(lambda n: n.kind == "stmt" and n.ast in st)
+            ok = bool(st) and bool(heads)
+            for h in heads:
+                starts = [m for m, k in h.succ if k == "loop" and m not in snodes]
+                r = cfg.reach(starts, avoid=lambda n: n in snodes, follow_exc=False) if starts else set()
+                if h in r:
+                    ok = False
+            if ok:
+                complete = (f, loop)
+    key = "reader::%s refreshed for every object" % F
+    if complete is not None:
+        R.ok(key, complete[0].where(complete[1]), "every round of the loop over the segment's objects stores the object under its path")
+        return
+    # (b) maintained inside the parser: every round of its object loop must pass a store
+    holders = [(f, stores_into(f, pname)) for f in prog.functions.values() if f.module is rso.module and pname in f.params and stores_into(f, pname)]
+    if not holders:
+        R.unrecognised(key, rso.where(), "neither a complete refresh loop in the reader nor stores inside the metadata parser were recognised")
+        return
+    cfg = ctx.cfg(rso)
+    loops = [n for n in walk_body(rso.node) if isinstance(n, ast.For)]
+    from .region import nodes_reaching
+    hq = {f.qual for f, _s in holders if f is not rso}
+    direct = [n for f, sts in holders if f is rso for n in sts]
+    snodes = set(cfg.where(lambda n: n.kind == "stmt" and n.ast in direct)) | (set(nodes_reaching(ctx, rso, cfg, hq)) if hq else set())
+    bad = None
+    for loop in loops:
+        if not any(n.ast is not None and any(x is n.ast for x in ast.walk(loop)) for n in snodes):
+            continue
+        for h in cfg.where(lambda n: n.kind == "for" and n.ast is loop):
+            starts = [m for m, k in h.succ if k == "loop" and m not in snodes]
+            r = cfg.reach(starts, avoid=lambda n: n in snodes, follow_exc=False) if starts else set()
+            if h in r:
+                bad = loop
+    if bad is not None:
+        R.violation(key, rso.where(bad), "the map of most recent segment objects is maintained inside the metadata parser, but a round of its object loop can end "
+                    "without recording the object (e.g. an object of the carried-over list whose index is restated): later `same as previous` headers for "
+                    "that path resolve to a stale index")
+    else:
+        R.ok(key, rso.where(), "every round of the parser's object loop records the object")
 
 
 # ---------------------------------------------------------------------------
